@@ -329,7 +329,7 @@ def c16_r5(ctx):
     tail_txt = "len(%s)" % tag.params[1]
     tails = [sp for sp in spans if sp[1] == tail_txt]
     betweens = [sp for sp in spans if sp[1] != tail_txt and sp[1].isidentifier() and sp[0].isidentifier()]
-    loops = [norm.canon(w.test) for w in ast.walk(tag.node) if isinstance(w, ast.While)]
+    loops = [norm.deep_canon(w.test, tag.node) for w in ast.walk(tag.node) if isinstance(w, ast.While)]
     posn = betweens[0][1] if betweens else "pos"
     roles_ok = len(tails) == 1 and len(betweens) == 1 and tails[0][0] == betweens[0][0] and "(%s < %s)" % (posn, tail_txt) in loops
     ctx.ob(tag, len(helpers) <= 1 and roles_ok,
